@@ -20,6 +20,121 @@ SLICES_THOROUGH = [("ws", 8, 3, 3, 300), ("wsov", 4, 3, 4, 150), ("pushws", 2, 1
                    ("counted", 4, 4, 4, 100), ("skip", 8, 4, 4, 120), ("factor", 4, 1, 5, 120), ("restore", 8, 1, 5, 120)]
 
 
+def _bundled_texts(which, quick, seed):
+    """Texts for a bundled grammar: pieces of the repository's example documents / test inputs, short hand-written
+    fragments, and single-character edits of the short ones."""
+    import random
+    import re
+    rnd = random.Random(seed)
+    base = []
+    g = os.path.join(REPO, "grammars")
+    def lines_of(path):
+        try:
+            return open(path, encoding="utf-8").read().splitlines()
+        except Exception:
+            return []
+    if which == "toml":
+        ls = [l for l in lines_of(os.path.join(g, "tests", "examples.toml"))]
+        for i in range(len(ls)):
+            base.append(ls[i] + "\n")
+            base.append("\n".join(ls[i:i + 3]) + "\n")
+        base += ['a = 1', 'a.b = "x"', '[t]\nk = true', '[[a.b]]\nx = 1979-05-27T07:32:00Z', "s = \'\'\'x\'\'\'", 'a = [1, [2, 3], "x"]', 'a = {b = 1, c = "d"}',
+                 'k = 0x1F', 'f = -1.5e+10', 'd = 1979-05-27', 't = 07:32:00.5', '# only a comment', 'a = """\nx\\\n  y"""', '"quoted key" = 1', 'a=1\r\nb=2\r\n']
+    elif which == "http":
+        for f in (os.path.join(g, "tests", "examples.http"), os.path.join(g, "benches", "requests.http")):
+            txt = "\n".join(lines_of(f))
+            for block in re.split(r"\n\n+", txt):
+                ls = block.split("\n")
+                short = [l[:60] for l in ls[:4]]
+                base.append("\n".join(short) + "\n\n")
+                base.append(ls[0][:80] + "\n\n")
+        base += ["GET / HTTP/1.1\n\n", "POST /a HTTP/1.0\r\nHost: x\r\n\r\n", "PUT /x  HTTP/2\nA: b\nC: d\n\n", "DELETE /\n\n", "GET /a HTTP/1.1\n###\nGET /b HTTP/1.1\n\n",
+                 "get / HTTP/1.1\n\n", "GET / HTTP/\n\n", "GET  /  HTTP/1.1\nX:y\n\n"]
+    else:
+        src = "\n".join(lines_of(os.path.join(g, "tests", "sql.rs")) + lines_of(os.path.join(g, "src", "lib.rs")))
+        for m in re.finditer(r'input:\s*(?:r#)?"((?:[^"\\]|\\.)*)"', src):
+            t = m.group(1).encode("utf-8").decode("unicode_escape", errors="ignore") if "\\" in m.group(1) else m.group(1)
+            base.append(t)
+        base += ["select * from t", "select a, b from t where a = 1 and b <> 'x'", "insert into t values (1, 'a')", "delete from t where a in (1, 2)",
+                 "explain select 1", "create table t (a int primary key, b text) distributed by (a)", "drop table t", "select a from t1 join t2 on t1.a = t2.b",
+                 "select count(*) from t group by a having a > 1", "select 1 union all select 2", "values (1), (2)", "SELECT \"A\" FROM \"T\"",
+                 "select a as b from t order by a desc", "select cast(a as int) from t", "select a from t where b is not null", "create user u with password 'p'",
+                 "select not a, -1, 1.5e3 from t", "select a || b from t", "select * from t where a between 1 and 2"]
+    base = [b for b in dict.fromkeys(base) if 0 < len(b) <= 200]
+    out = []
+    for b in base:
+        out.append({"text": b, "top_only": len(b) > 48})
+    short = [b for b in base if len(b) <= 48]
+    rnd.shuffle(short)
+    alphabet = list(" \n\t\"'=[]{}().,#*-+:/<>|_aZ09\u00e9\r\\")
+    for b in short[: (25 if quick else 400)]:
+        for p in range(len(b)):
+            out.append({"text": b[:p] + b[p + 1:], "top_only": True})
+            c = alphabet[rnd.randrange(len(alphabet))]
+            out.append({"text": b[:p] + c + b[p + 1:], "top_only": True})
+            if p % 3 == 0:
+                out.append({"text": b[:p] + c + b[p:], "top_only": True})
+        out.append({"text": b[: len(b) // 2], "top_only": False})
+    return [dict(x, text=[ord(c) for c in x["text"]]) for x in out]
+
+
+def _bundled(ctx, vh, quick):
+    """The grammars bundled with pest (TOML, SQL, HTTP) as a workload: compiled derived parser (pest_grammars) = VM over
+    the current .pest file on every (rule, text), and on a sample = the TLA+ semantics of the file (Trace_Bootstrap)."""
+    tot = 0
+    for which in ("toml", "http", "sql"):
+        texts = os.path.join(ctx.work, "bundled_%s_texts.ndjson" % which)
+        recs = _bundled_texts(which, quick, ctx.seed)
+        with open(texts, "w") as f:
+            for r in recs:
+                f.write(json.dumps(r) + "\n")
+        out = os.path.join(ctx.work, "bundled_%s.ndjson" % which)
+        gram = os.path.join(ctx.work, "bundled_%s_grammar.ndjson" % which)
+        s = run_json([vh, "bundled-emit", "--which", which, "--texts", texts, "--out", out, "--grammar-out", gram,
+                      "--doc-every", "60" if quick else "20"], timeout=6000)
+        os.remove(texts)
+        lines = open(out).read().splitlines()
+        os.remove(out)
+        parts = []
+        for p in range(12):
+            sub = lines[p::12]
+            if sub:
+                pf = "%s.%d" % (out, p)
+                open(pf, "w").write("\n".join(sub) + "\n")
+                parts.append(pf)
+        from concurrent.futures import ThreadPoolExecutor
+        def val(path):
+            return path, tlc("Trace_Bootstrap", workdir=ctx.work, outname=os.path.basename(path) + ".out", workers=1,
+                             env={"BATCH": path, "GRAMMAR": gram}, timeout=12000, xmx="3g")
+        with ThreadPoolExecutor(max_workers=12) as ex:
+            res = list(ex.map(val, parts))
+        import re as _re
+        seen = {}
+        for (path, r) in res:
+            ctx.cov["states"] += r.distinct
+            ctx.cov["transitions"] += r.generated
+            rej = []
+            with open(r.out, errors="replace") as f:
+                for line in f:
+                    m = _re.match(r'<<"REJECTED", "(\w+)", (\d+), (".*")>>\s*$', line)
+                    if m:
+                        rej.append((m.group(1), json.loads(json.loads(m.group(3)))))
+            if not r.ok and not rej:
+                raise ToolError("Trace_Bootstrap on %s: %s" % (which, r.violated))
+            for (kind, obj) in rej:
+                key = (kind, obj.get("start"))
+                seen[key] = seen.get(key, 0) + 1
+                if seen[key] <= 2:
+                    ctx.violation({"kind": "trace", "spec": "Trace_Bootstrap (bundled grammar %s.pest)" % which, "which": kind, "bundled": which,
+                                   "start": obj.get("start"), "inp": obj.get("inp"), "input": "".join(chr(c) for c in obj.get("inp", [])),
+                                   "derived_parser_in_pest_grammars": obj.get("checked_in"), "vm_over_current_file": obj.get("vm")})
+            os.remove(path)
+            os.remove(r.out)
+        ctx.cov["engines"].append({"name": "bundled grammar %s.pest" % which, "role": "pest_grammars' derived parser = VM over the current file; PegSemantics on a sample", **s})
+        tot += s["cases"]
+    return tot
+
+
 def run(ctx):
     quick = ctx.tier == "quick"
     vh = cargo_build()
@@ -108,8 +223,9 @@ def run(ctx):
             c = next((c for c in x["cases"] if c["vm"]["k"] == "fail"), x["cases"][0])
             ctx.sample({"kind": "one case on both back-ends, validated by TLC", "grammar": x["text"], "case": c})
         os.remove(path)
-    ctx.cov["traces_validated_against_impl"] = tot["cases"]
-    ctx.cov["evaluations"] = tot["cases"] * 2
+    nb = _bundled(ctx, vh, quick)
+    ctx.cov["traces_validated_against_impl"] = tot["cases"] + nb
+    ctx.cov["evaluations"] = (tot["cases"] + nb) * 2
     ctx.cov["distinct_nontrivial"] = tot["failing_parses"]
     ctx.cov["totals"] = tot
     ctx.cov["engines"].append({"name": "Trace_Backends", "role": "equality of derived parser and VM outcomes (+ PegSemantics where known)",
